@@ -198,6 +198,10 @@ CraftVal(k, os, h) ==
        r3cap |-> IF yy = 0 THEN 0 ELSE Mu(Sb(t2, c), Inv(yy)),
        mcap |-> [j \in 1 .. o.U |-> 0], c |-> c]
 
+\* "lo": a point of E(Fp) outside the prime-order group (e.g. of order 3).  It is no group element:
+\* the decoder refuses it, so a proof crafted with it is not decodable (the attacker's arithmetic,
+\* Abar = Bbar = T of order 3 with e^ chosen so that (c + e^) mod 3 is what T1* needs, is in craft.rs)
+CraftInGroup(o) == o.pts.A # "lo" /\ o.pts.B # "lo" /\ o.pts.D # "lo"
 AnyProofVal(k, os, h) == IF os[h].kind = "craft" THEN CraftVal(k, os, h) ELSE ProofVal(k, os, h)
 
 \* ----------------------------------------------------------- provenance
@@ -341,7 +345,7 @@ ProofVerify(h, key, s, hdr, ph, dmsgs, didx) ==
   /\ LET a   == Api(s, "plain")
          dm  == CanonV(dmsgs)
          ix  == SortSet(SeqSet(CanonO(didx)))
-         dec == objs[h].kind = "craft" \/ ProofDecodable(objs, h)
+         dec == (objs[h].kind = "craft" /\ CraftInGroup(objs[h])) \/ (objs[h].kind # "craft" /\ ProofDecodable(objs, h))
          lenok == Len(dm) = Len(ix)
          mech == /\ dec /\ lenok
                  /\ AllS(LAMBDA k :
@@ -428,7 +432,7 @@ BlindProofVerify(h, key, s, hdr, ph, Lraw, dmsgs, dcmsgs, didx, dcidx) ==
          ix1 == SortSet(SeqSet(CanonO(didx)))
          ix2 == SortSet(SeqSet(CanonO(dcidx)))
          ix  == ix1 \o [j \in 1 .. Len(ix2) |-> ix2[j] + L + 1]
-         dec == objs[h].kind = "craft" \/ ProofDecodable(objs, h)
+         dec == (objs[h].kind = "craft" /\ CraftInGroup(objs[h])) \/ (objs[h].kind # "craft" /\ ProofDecodable(objs, h))
          mech == /\ dec
                  /\ Len(dm) = Len(ix)
                  \* F12: the pinned code does not require signer indexes to be below L
